@@ -315,10 +315,6 @@ func (fc *fileCtx) instrument() {
 	if len(fc.edits) > before {
 		// Same line as the package clause: keeps line numbers intact.
 		imp := `; import zzverifsim "github.com/bool64/cache/zzverifsim"`
-		if race {
-			imp += `; import zzunsafe "unsafe"; var _ zzunsafe.Pointer`
-		}
-
 		fc.insert(fc.file.Name.End(), imp, 0)
 	}
 }
@@ -560,10 +556,41 @@ func (fc *fileCtx) rangeStmt(r *ast.RangeStmt) {
 	}
 
 	if race {
-		fmt.Fprintf(&b, "zzverifsim.AccessMap(zzverifsim.MapPtr(%s), false, %q); ", m, fc.label(r.Pos()))
+		fmt.Fprintf(&b, "zzverifsim.AccessMap(zzverifsim.MapPtr(%s), false, %q); ", m, fc.label(r.Pos())+"|"+fc.funcAt(r.Pos())+":map-range")
 	}
 
 	fc.replace(r.Pos(), r.Body.Lbrace+1, b.String())
 	fc.insert(r.End(), " }", 8)
 	stats["maprange"]++
+}
+
+// funcAt names the function declaration enclosing a position.
+func (fc *fileCtx) funcAt(p token.Pos) string {
+	for _, d := range fc.file.Decls {
+		fd, ok := d.(*ast.FuncDecl)
+		if !ok || p < fd.Pos() || p > fd.End() {
+			continue
+		}
+
+		name := fd.Name.Name
+
+		if fd.Recv != nil && len(fd.Recv.List) == 1 {
+			t := fd.Recv.List[0].Type
+			if st, ok := t.(*ast.StarExpr); ok {
+				t = st.X
+			}
+
+			if ix, ok := t.(*ast.IndexExpr); ok {
+				t = ix.X
+			}
+
+			if id, ok := t.(*ast.Ident); ok {
+				name = id.Name + "." + name
+			}
+		}
+
+		return name
+	}
+
+	return "?"
 }
